@@ -1038,6 +1038,69 @@ fn c19_cli(ctx: &mut Ctx, rng: &mut Rng, cli: &str, xdir: &str) {
             ctx.bucket("tokenizer_cli_output_parsed_as_corpus");
             ctx.total("cli_sentences_compared", want.len() as u64);
             ctx.distinct(hash_bytes(&out));
+            // ... and can be fed to `split` and `evaluate`
+            w("tok.txt", &out);
+            if std::path::Path::new(&format!("{cli}/split")).exists() && !want.is_empty() {
+                let (vr, tr) = ([0.0, 0.1, 0.2, 0.3, 0.4][rng.below(5)], [0.0, 0.1, 0.2, 0.3, 0.5][rng.below(5)]);
+                let st = Command::new(format!("{cli}/split"))
+                    .args(["-i", &format!("{dir}/tok.txt"), "-t", &format!("{dir}/s.train"), "-v", &format!("{dir}/s.valid"), "-e", &format!("{dir}/s.test"), "--valid-ratio", &vr.to_string(), "--test-ratio", &tr.to_string()])
+                    .stdout(Stdio::null())
+                    .stderr(Stdio::null())
+                    .status();
+                ctx.eval();
+                let mut parts: Vec<Sent> = vec![];
+                let mut ok = st.map_or(false, |s| s.success());
+                for f in ["s.train", "s.valid", "s.test"] {
+                    match std::fs::read(format!("{dir}/{f}")).ok().and_then(|b| Corpus::from_reader(b.as_slice()).ok()) {
+                        Some(c) => parts.extend(examples_of(&c)),
+                        None => ok = false,
+                    }
+                }
+                let mut a = parts;
+                let mut b = want.clone();
+                a.sort();
+                b.sort();
+                if !ok || a != b {
+                    ctx.violation("split_tool_loses_or_duplicates_sentences", "C19:split_tool", format!("split --valid-ratio {vr} --test-ratio {tr} on the tokenizer's output: exit ok = {ok}; the three files hold {} sentences, the input {}", a.len(), b.len()), cj(String::from_utf8_lossy(&out).chars().take(1500).collect()));
+                    let _ = std::fs::remove_dir_all(&dir);
+                    return;
+                }
+                ctx.bucket("tokenizer_output_split_into_train_valid_test");
+            }
+            if std::path::Path::new(&format!("{cli}/evaluate")).exists() && !want.is_empty() && !o.ignore_space {
+                // the tokenizer's own output evaluated against the same dictionary: every token is correct
+                let mut e = Command::new(format!("{cli}/evaluate"));
+                e.args(["-t", &format!("{dir}/tok.txt"), "-i", &format!("{dir}/sys.dic.zst")]);
+                if o.mgl != 0 {
+                    e.args(["-M", &o.mgl.to_string()]);
+                }
+                let idx = match rng.below(3) {
+                    0 => None,
+                    1 => Some("0".to_string()),
+                    _ => Some(format!("{},{}", rng.below(3), 5 + rng.below(6))),
+                };
+                if let Some(i) = &idx {
+                    e.args(["--feature-indices", i]);
+                }
+                ctx.eval();
+                match e.stderr(Stdio::null()).output() {
+                    Ok(r) if r.status.success() => {
+                        let txt = String::from_utf8_lossy(&r.stdout).to_string();
+                        let one = |k: &str| txt.lines().any(|l| l.trim() == format!("{k} = 1"));
+                        if !(one("Precision") && one("Recall") && one("F1")) {
+                            ctx.violation("evaluate_tool_disagrees_with_the_tokenizer", "C19:evaluate_tool", format!("evaluate (feature indices {:?}) on the tokenizer's own output printed {:?}; expected precision = recall = F1 = 1", idx, txt), cj(String::from_utf8_lossy(&out).chars().take(1500).collect()));
+                            let _ = std::fs::remove_dir_all(&dir);
+                            return;
+                        }
+                        ctx.bucket("tokenizer_output_evaluated");
+                    }
+                    other => {
+                        ctx.violation("evaluate_tool_failed", "C19:evaluate_tool_failed", format!("evaluate (feature indices {:?}) on the tokenizer's own output: {:?}", idx, other.map(|r| r.status.code())), cj(String::from_utf8_lossy(&out).chars().take(1500).collect()));
+                        let _ = std::fs::remove_dir_all(&dir);
+                        return;
+                    }
+                }
+            }
         }
         Ok(Err(e)) => ctx.violation("tokenizer_output_not_a_corpus", "C19:tokenizer_output_not_a_corpus", e, cj(String::from_utf8_lossy(&out).chars().take(2000).collect())),
         Err(p) => ctx.violation("corpus_parser_panicked", &format!("C19:{}", panic_class(&p)), p, cj(String::new())),
@@ -1081,7 +1144,12 @@ pub fn c20_case(ctx: &mut Ctx, rng: &mut Rng) {
         for _ in 1..n {
             // 2-3 columns, now and then 11-12 (UniDic-sized rows)
             let cols = if rng.chance(0.2) { 11 + rng.below(2) } else { 2 + rng.below(2) };
-            v.push((0..cols).map(|_| rng.pick(&vocab).to_string()).collect());
+            let mut row: Vec<String> = (0..cols).map(|_| rng.pick(&vocab).to_string()).collect();
+            if rng.chance(0.1) {
+                // a row ending with an empty cell (`1 名詞,`): the empty text, not '*'
+                *row.last_mut().unwrap() = String::new();
+            }
+            v.push(row);
         }
         v
     };
@@ -1205,7 +1273,7 @@ pub fn c20_case(ctx: &mut Ctx, rng: &mut Rng) {
                     rtxt = lines.iter().enumerate().map(|(i, l)| if i == 1 { format!("{bad1}\n") } else { format!("{l}\n") }).collect();
                 }
             }
-            _ => rtxt = rtxt.replacen("0 BOS/EOS", "0 名詞", 1),
+            _ => rtxt = rtxt.replacen("0 BOS/EOS", ["0 名詞", "0 BOS/EOS記号", "0 BOS/EOS-2", "0 bos/eos", "0 \"BOS/EOS \""][rng.below(5)], 1),
         }
         let swap = rng.chance(0.5);
         let (a, b) = if swap { (ltxt.clone(), rtxt.clone()) } else { (rtxt.clone(), ltxt.clone()) };
